@@ -11,35 +11,57 @@ import "gorm.io/gorm"
 //	Node  --Card (has-one)-----------> Card
 //	Node  --Tags (many2many)---------> Tag       composite on both sides in the composite worlds
 //	Node  --Pics (polymorphic)-------> Pic       single-key worlds only
+//	Node  --Logo (polymorphic has-one)> Pic      single-key worlds only (same table as Pics, type value "logo")
 //
 // U is a unique surrogate (never a key of a relation) used to identify rows; V is a payload
-// used by preload / join conditions. Node, Item, Card and Tag are soft-delete models.
+// used by preload / join conditions; N is a nullable payload (NULL in about half of the rows).
+// Node, Item, Card and Tag are soft-delete models.
+//
+// The ORDER of the columns differs from world to world (it is the order in which a joined
+// relation's columns are selected and scanned): the models that can be the target of a
+// single-valued (joinable) relation start with
+//
+//	S1Node  an embedded audit struct {DeletedAt, N}     S1Card  N                S1Pic  N
+//	I1Node  the nullable foreign key BossA, then N      I1Card  (value relation) I1Pic  (value relation)
+//	SSNode  N                                           SSCard  DeletedAt
+//	ISNode  U (never NULL: the usual layout)            ISCard  (value relation)
+//	IINode  DeletedAt, then N                           IICard  the nullable foreign key NodeA, then N
+//
+// so a joined row whose leading column(s) are NULL exists in four of the five worlds.
 
 // ---- S1: single string key ------------------------------------------------
 
-type S1Node struct {
-	U         int64
-	A         string `gorm:"primaryKey"`
-	V         int64
-	BossA     *string
+type S1Audit struct {
 	DeletedAt gorm.DeletedAt
-	Boss      *S1Node  `gorm:"foreignKey:BossA;references:A"`
-	Subs      []S1Node `gorm:"foreignKey:BossA;references:A"`
-	Items     []S1Item `gorm:"foreignKey:OwnA;references:A"`
-	Card      *S1Card  `gorm:"foreignKey:NodeA;references:A"`
-	Tags      []S1Tag  `gorm:"many2many:s1_node_tags;foreignKey:A;joinForeignKey:NodeA;references:TA;joinReferences:TagTA"`
-	Pics      []S1Pic  `gorm:"polymorphic:Owner;polymorphicValue:node"`
+	N         *int64
+}
+
+type S1Node struct {
+	S1Audit
+	U     int64
+	A     string `gorm:"primaryKey"`
+	V     int64
+	BossA *string
+	Boss  *S1Node  `gorm:"foreignKey:BossA;references:A"`
+	Subs  []S1Node `gorm:"foreignKey:BossA;references:A"`
+	Items []S1Item `gorm:"foreignKey:OwnA;references:A"`
+	Card  *S1Card  `gorm:"foreignKey:NodeA;references:A"`
+	Tags  []S1Tag  `gorm:"many2many:s1_node_tags;foreignKey:A;joinForeignKey:NodeA;references:TA;joinReferences:TagTA"`
+	Pics  []S1Pic  `gorm:"polymorphic:Owner;polymorphicValue:node"`
+	Logo  *S1Pic   `gorm:"polymorphic:Owner;polymorphicValue:logo"`
 }
 
 type S1Item struct {
+	DeletedAt gorm.DeletedAt
 	U         int64 `gorm:"primaryKey;autoIncrement:false"`
 	OwnA      *string
+	N         *int64
 	V         int64
-	DeletedAt gorm.DeletedAt
 	Owner     *S1Node `gorm:"foreignKey:OwnA;references:A"`
 }
 
 type S1Card struct {
+	N         *int64
 	U         int64 `gorm:"primaryKey;autoIncrement:false"`
 	NodeA     string
 	V         int64
@@ -50,10 +72,12 @@ type S1Tag struct {
 	U         int64
 	TA        string `gorm:"primaryKey"`
 	V         int64
+	N         *int64
 	DeletedAt gorm.DeletedAt
 }
 
 type S1Pic struct {
+	N         *int64
 	U         int64 `gorm:"primaryKey;autoIncrement:false"`
 	OwnerID   string
 	OwnerType string
@@ -63,10 +87,11 @@ type S1Pic struct {
 // ---- I1: single integer key -------------------------------------------------
 
 type I1Node struct {
+	BossA     *int64
+	N         *int64
 	U         int64
 	A         int64 `gorm:"primaryKey;autoIncrement:false"`
 	V         int64
-	BossA     *int64
 	DeletedAt gorm.DeletedAt
 	Boss      *I1Node   `gorm:"foreignKey:BossA;references:A"`
 	Subs      []*I1Node `gorm:"foreignKey:BossA;references:A"`
@@ -74,17 +99,20 @@ type I1Node struct {
 	Card      I1Card    `gorm:"foreignKey:NodeA;references:A"`
 	Tags      []*I1Tag  `gorm:"many2many:i1_node_tags;foreignKey:A;joinForeignKey:NodeA;references:TA;joinReferences:TagTA"`
 	Pics      []*I1Pic  `gorm:"polymorphic:Owner;polymorphicValue:node"`
+	Logo      I1Pic     `gorm:"polymorphic:Owner;polymorphicValue:logo"`
 }
 
 type I1Item struct {
 	U         int64 `gorm:"primaryKey;autoIncrement:false"`
 	OwnA      int64
 	V         int64
+	N         *int64
 	DeletedAt gorm.DeletedAt
 	Owner     *I1Node `gorm:"foreignKey:OwnA;references:A"`
 }
 
 type I1Card struct {
+	N         *int64
 	U         int64 `gorm:"primaryKey;autoIncrement:false"`
 	NodeA     *int64
 	V         int64
@@ -92,6 +120,7 @@ type I1Card struct {
 }
 
 type I1Tag struct {
+	N         *int64
 	U         int64
 	TA        int64 `gorm:"primaryKey;autoIncrement:false"`
 	V         int64
@@ -103,11 +132,13 @@ type I1Pic struct {
 	OwnerID   int64
 	OwnerType string
 	V         int64
+	N         *int64
 }
 
 // ---- SS: composite string + string ---------------------------------------------
 
 type SSNode struct {
+	N         *int64
 	U         int64
 	A         string `gorm:"primaryKey"`
 	B         string `gorm:"primaryKey"`
@@ -124,6 +155,7 @@ type SSNode struct {
 
 type SSItem struct {
 	U         int64 `gorm:"primaryKey;autoIncrement:false"`
+	N         *int64
 	OwnA      *string
 	OwnB      *string
 	V         int64
@@ -132,14 +164,16 @@ type SSItem struct {
 }
 
 type SSCard struct {
+	DeletedAt gorm.DeletedAt
 	U         int64 `gorm:"primaryKey;autoIncrement:false"`
 	NodeA     string
 	NodeB     string
 	V         int64
-	DeletedAt gorm.DeletedAt
+	N         *int64
 }
 
 type SSTag struct {
+	N         *int64
 	U         int64
 	TA        string `gorm:"primaryKey"`
 	TB        string `gorm:"primaryKey"`
@@ -156,6 +190,7 @@ type ISNode struct {
 	V         int64
 	BossA     *int64
 	BossB     *string
+	N         *int64
 	DeletedAt gorm.DeletedAt
 	Boss      *ISNode   `gorm:"foreignKey:BossA,BossB;references:A,B"`
 	Subs      []*ISNode `gorm:"foreignKey:BossA,BossB;references:A,B"`
@@ -169,6 +204,7 @@ type ISItem struct {
 	OwnA      *int64
 	OwnB      string
 	V         int64
+	N         *int64
 	DeletedAt gorm.DeletedAt
 	Owner     *ISNode `gorm:"foreignKey:OwnA,OwnB;references:A,B"`
 }
@@ -178,6 +214,7 @@ type ISCard struct {
 	NodeA     int64
 	NodeB     string
 	V         int64
+	N         *int64
 	DeletedAt gorm.DeletedAt
 }
 
@@ -186,19 +223,21 @@ type ISTag struct {
 	TA        int64  `gorm:"primaryKey;autoIncrement:false"`
 	TB        string `gorm:"primaryKey"`
 	V         int64
+	N         *int64
 	DeletedAt gorm.DeletedAt
 }
 
 // ---- II: composite integer + integer -----------------------------------------------
 
 type IINode struct {
+	DeletedAt gorm.DeletedAt
+	N         *int64
 	U         int64
 	A         int64 `gorm:"primaryKey;autoIncrement:false"`
 	B         int64 `gorm:"primaryKey;autoIncrement:false"`
 	V         int64
 	BossA     *int64
 	BossB     *int64
-	DeletedAt gorm.DeletedAt
 	Boss      *IINode  `gorm:"foreignKey:BossA,BossB;references:A,B"`
 	Subs      []IINode `gorm:"foreignKey:BossA,BossB;references:A,B"`
 	Items     []IIItem `gorm:"foreignKey:OwnA,OwnB;references:A,B"`
@@ -207,17 +246,19 @@ type IINode struct {
 }
 
 type IIItem struct {
+	OwnB      *int64
 	U         int64 `gorm:"primaryKey;autoIncrement:false"`
 	OwnA      int64
-	OwnB      *int64
 	V         int64
+	N         *int64
 	DeletedAt gorm.DeletedAt
 	Owner     *IINode `gorm:"foreignKey:OwnA,OwnB;references:A,B"`
 }
 
 type IICard struct {
-	U         int64 `gorm:"primaryKey;autoIncrement:false"`
 	NodeA     *int64
+	N         *int64
+	U         int64 `gorm:"primaryKey;autoIncrement:false"`
 	NodeB     int64
 	V         int64
 	DeletedAt gorm.DeletedAt
@@ -228,5 +269,6 @@ type IITag struct {
 	TA        int64 `gorm:"primaryKey;autoIncrement:false"`
 	TB        int64 `gorm:"primaryKey;autoIncrement:false"`
 	V         int64
+	N         *int64
 	DeletedAt gorm.DeletedAt
 }
